@@ -481,9 +481,23 @@ def dsge_decider(rng, rec):
     geno = D.Genotype(core_native(rng), {int: gen_genes(rng)} if rng.random() < 0.5 else {})
     d = D.DynamicSGEDecider(geno, G(), 5)
     for _ in range(120):
-        a, b = rng.choice([x for x in BOUNDS if x[0] < x[1]])
+        a, b = rng.choice(BOUNDS)  # equal bounds included: a draw from [a, a] is a
         try:
             d.random_int(a, b)
+        except core.CaseTimeout:
+            raise
+        except BaseException as e:  # noqa
+            _viol(f"decider-random_int-raises:DynamicSGEDecider:{type(e).__name__}", {"min": a, "max": b, "error": core.short(e)})
+    # every value of a small range is reachable from SOME gene (both bounds are inclusive, as for BaseDecider)
+    for a, b in ((0, 1), (0, 3), (-2, 2), (5, 5), (0, 10)):
+        try:
+            got = set()
+            for gene in range(0, 3 * (b - a + 1) + 2):
+                got.add(D.DynamicSGEDecider(D.Genotype(core_native(rng), {int: [gene]}), G(), 5).random_int(a, b))
+            _r().count("decider_small_ranges_enumerated")
+            missing = sorted(set(range(a, b + 1)) - got)
+            if missing:
+                _viol("decider-random_int-value-unreachable:DynamicSGEDecider", {"min": a, "max": b, "never_drawn": missing[:5]})
         except core.CaseTimeout:
             raise
         except BaseException as e:  # noqa
